@@ -944,6 +944,26 @@ def _make_lgf_wrapper(orig):
             w.probe("posterior_update_fallback")
         if optim_state.get("second_fit"):
             w.probe("second_fit")
+        if "acq" in w.monitors:
+            # the posterior actually in use must be the posterior of the training pairs the GP holds:
+            # recompute it on a deep copy with the same hyperparameters and compare predictions
+            try:
+                import copy as _copy
+                g2 = _copy.deepcopy(g)
+                _ORIG["GP.update"](g2, hyp=g.get_hyperparameters(as_array=True))
+                pts = np.atleast_2d(np.vstack([ref, np.asarray(g.X, float)[:3]]))
+                m1, v1 = _ORIG["GP.predict"](g, pts)
+                m2, v2 = _ORIG["GP.predict"](g2, pts)
+                w.probe("posterior_checked")
+                if not (np.allclose(m1, m2, rtol=1e-6, atol=1e-9, equal_nan=True) and np.allclose(v1, v2, rtol=1e-6, atol=1e-12, equal_nan=True)):
+                    w.violate("C15", "posterior-stale", "GP predictions do not come from the posterior of its current training pairs",
+                              dmean=float(np.nanmax(np.abs(m1 - m2))), dvar=float(np.nanmax(np.abs(v1 - v2))), refit=bool(refit_flag))
+            except np.linalg.LinAlgError:
+                w.probe("posterior_check_linalg")
+            except HarnessError:
+                raise
+            except Exception as e:
+                raise HarnessError("posterior monitor failed: " + repr(e)) from e
         try:
             _check_training_set(w, g, Xl, Yl, Sl, ref, len_scale, n_min, n_max, optim_state, udist, options)
         except HarnessError:
